@@ -86,6 +86,14 @@ def rreach(cfg, dst, avoid=()):
     return seen
 
 
+def _const_truth(e):
+    """Truth value of a test made of constants only (checker's own evaluator), else None."""
+    try:
+        return bool(norm.consteval(e))
+    except (NormError, TypeError, ValueError):
+        return None
+
+
 class Expander:
     LIMIT = 20000
 
@@ -101,6 +109,7 @@ class Expander:
         self._subs = {}
         self._active = set()
         self._count = 0
+        self._memo = {}
 
     # -- definitions ---------------------------------------------------
     def writes(self, name):
@@ -191,8 +200,14 @@ class Expander:
         alts = [()]
         for t, pol in conds:
             tn = test_nid(self.cfg, t)
-            opts = self.expand(t, tn, depth + 1)
-            alts = [a + ((t2, pol),) + c2 for a in alts for t2, c2 in opts]
+            opts = []
+            for t2, c2 in self.expand(t, tn, depth + 1):
+                k = _const_truth(t2)
+                if k is None:
+                    opts.append(((t2, pol),) + c2)
+                elif k == pol:
+                    opts.append(c2)
+            alts = [a + o for a in alts for o in opts]
             self._tick(len(alts))
         return alts
 
@@ -203,6 +218,24 @@ class Expander:
 
     def expand(self, e, nid, depth=0):
         """[(expression', conditions)] for expression e evaluated at CFG node nid."""
+        key = (id(e), nid, self.path_conds)
+        if key not in self._memo:
+            self._memo[key] = (e, self._expand(e, nid, depth))
+        return self._memo[key][1]
+
+    def _cond_alts(self, t, nid, depth):
+        """Alternatives of a test: [(truth, extra conditions)], constants decided."""
+        out = []
+        for t2, c in self.expand(t, nid, depth + 1):
+            k = _const_truth(t2)
+            if k is None:
+                out.append((True, c + ((t2, True),)))
+                out.append((False, c + ((t2, False),)))
+            else:
+                out.append((k, c))
+        return out
+
+    def _expand(self, e, nid, depth):
         if depth > 60:
             raise AnalysisError("expansion too deep in %s" % self.fi.short)
         if isinstance(e, ast.Constant):
@@ -219,11 +252,9 @@ class Expander:
                 return self._inline(c, depth)
         if isinstance(e, ast.IfExp):
             out = []
-            for t, c1 in self.expand(e.test, nid, depth + 1):
-                for b, c2 in self.expand(e.body, nid, depth + 1):
-                    out.append((b, c1 + ((t, True),) + c2))
-                for o, c3 in self.expand(e.orelse, nid, depth + 1):
-                    out.append((o, c1 + ((t, False),) + c3))
+            for truth, c1 in self._cond_alts(e.test, nid, depth):
+                for b, c2 in self.expand(e.body if truth else e.orelse, nid, depth + 1):
+                    out.append((b, c1 + c2))
             self._tick(len(out))
             return out
         if self.minmax and isinstance(e, ast.Call) and chain(e.func) in ("min", "max") and len(e.args) == 2 and not e.keywords \
@@ -233,8 +264,11 @@ class Expander:
             for a, ca in self.expand(e.args[0], nid, depth + 1):
                 for b, cb in self.expand(e.args[1], nid, depth + 1):
                     lt = ast.Compare(left=a, ops=[ast.Lt()], comparators=[b])
-                    out.append((a if is_min else b, ca + cb + ((lt, True),)))
-                    out.append((b if is_min else a, ca + cb + ((lt, False),)))
+                    k = _const_truth(lt)
+                    if k is not False:
+                        out.append((a if is_min else b, ca + cb + (((lt, True),) if k is None else ())))
+                    if k is not True:
+                        out.append((b if is_min else a, ca + cb + (((lt, False),) if k is None else ())))
             self._tick(len(out))
             return out
         return self._generic(e, nid, depth)
@@ -867,3 +901,516 @@ def b(ctx):
     ctx.ob("reduced_to preserves the byte offset num * 2^(min(szx,6)+4)", not f_startkeep, fi, fi.node,
            detail="; ".join(f_startkeep[:4]) if f_startkeep else None, construct="BlockwiseTuple.reduced_to [start]")
     ctx.ob("reduced_to keeps the more flag", not f_more, fi, fi.node, detail="; ".join(f_more[:4]) if f_more else None, construct="BlockwiseTuple.reduced_to [more]")
+
+
+# ===========================================================================
+# C05.c / C05.f  Block1 loop of BlockwiseRequest._run
+# ===========================================================================
+
+
+class _Roles:
+    pass
+
+
+def _own_stmt(cfg, node):
+    return cfg.nodes[cfg.loc1(node)].ast
+
+
+def _assigned_name(st, value):
+    if isinstance(st, ast.Assign) and len(st.targets) == 1 and isinstance(st.targets[0], ast.Name) and st.value is value:
+        return st.targets[0].id
+    if isinstance(st, ast.AnnAssign) and isinstance(st.target, ast.Name) and st.value is value:
+        return st.target.id
+    return None
+
+
+def _block1_roles(ctx):
+    """Identify, by data flow only, the block cursor, the exponent variable, the
+    block just cut, its request and its response in BlockwiseRequest._run."""
+    fi = ctx.prog.func(BR + "_run")
+    cfg = cfg_of(fi)
+    r = _Roles()
+    r.fi, r.cfg = fi, cfg
+    calls = list(find("$r._extract_block($c, $s, $m)", fi.node))
+    ctx.floor("_extract_block call sites in BlockwiseRequest._run", len(calls), 1)
+    ctx.need(len(calls) == 1, "several _extract_block call sites in BlockwiseRequest._run")
+    call, b = calls[0]
+    ctx.need(isinstance(b["c"], ast.Name) and isinstance(b["s"], ast.Name), "_run: block cursor / size exponent handed to _extract_block are not locals")
+    r.call, r.cursor, r.szx, r.req, r.maxarg = call, b["c"].id, b["s"].id, chain(b["r"]), b["m"]
+    ctx.need(r.req in params(fi), "_run: _extract_block is not called on the application request parameter")
+    r.blk = _assigned_name(_own_stmt(cfg, call), call)
+    ctx.need(r.blk is not None, "_run: result of _extract_block is not bound to a local")
+    loops = enclosing_loops(cfg, call, fi.node)
+    ctx.need(loops, "_run: _extract_block is not called inside the Block1 loop")
+    r.outer = loops[0]
+    sends = [n for n, bb in find("$p.request($x, $**kw)", r.outer) if isinstance(bb["x"], ast.Name) and bb["x"].id == r.blk]
+    ctx.need(len(sends) == 1, "_run: expected exactly one request built from the current block (found %d)" % len(sends))
+    r.send = sends[0]
+    r.send_nid = cfg.loc1(r.send)
+    r.q = _assigned_name(_own_stmt(cfg, r.send), r.send)
+    ctx.need(r.q is not None, "_run: the block request is not bound to a local")
+    r.resp = None
+    for n in ast.walk(r.outer):
+        if isinstance(n, ast.Await) and isinstance(n.value, ast.Attribute) and n.value.attr == "response" and isinstance(n.value.value, ast.Name) and n.value.value.id == r.q:
+            nm = _assigned_name(_own_stmt(cfg, n), n)
+            if nm is not None:
+                ctx.need(r.resp is None, "_run: the block response is awaited twice")
+                r.resp, r.resp_nid = nm, cfg.loc1(n)
+    ctx.need(r.resp is not None, "_run: no `x = await <block request>.response` in the Block1 loop")
+    ctx.need(cfg.dominates(r.send_nid, r.resp_nid), "_run: response awaited before the request is sent")
+    r.X = Expander(fi)
+    r.N = Normalizer()
+
+    def in_outer(st):
+        return any(l is r.outer for l in enclosing_loops(cfg, st, fi.node))
+
+    def innermost(st):
+        ls = enclosing_loops(cfg, st, fi.node)
+        return ls[0] if ls else None
+
+    r.cur_writes = [w for w in writes_to_name(fi.node, r.cursor) if in_outer(w)]
+    r.szx_writes = [w for w in writes_to_name(fi.node, r.szx) if in_outer(w)]
+    r.adv = [w for w in r.cur_writes if innermost(w) is r.outer]
+    r.red_loops = []
+    for l in ast.walk(r.outer):
+        if isinstance(l, (ast.While, ast.For)) and l is not r.outer:
+            if any(innermost(w) is l for w in r.cur_writes + r.szx_writes):
+                r.red_loops.append(l)
+    r.innermost = innermost
+    b1n = "%s.opt.block1" % r.resp
+    x1n = "%s.opt.block1" % r.blk
+    r.A = lambda txt: Poly.atom(txt)
+    r.match = ("eq", norm._signnorm(Poly.atom(b1n + ".block_number") - Poly.atom(x1n + ".block_number")))
+    r.mismatch = ("ne", r.match[1])
+    r.final = ("nottruth", x1n + ".more")
+    r.resp_more = b1n + ".more"
+    r.resp_szx = b1n + ".size_exponent"
+    return r
+
+
+def _infeasible(r, s):
+    """Branch outcomes of tests over the exponent variable alone that are false when it equals s."""
+    out = set()
+    for p in pseudo_nodes(r.cfg):
+        if names_in(p.ast) == {r.szx}:
+            try:
+                v = bool(norm.consteval(p.ast, {r.szx: s}))
+            except (NormError, TypeError):
+                continue
+            if v != (p.kind == "T"):
+                out.add(p.id)
+    return out
+
+
+def _delta(name, w):
+    v = Expander._def_value(name, w)
+    if v is None:
+        return None
+    try:
+        return Normalizer(penv={name: Poly.atom("CUR")}).poly(v) - Poly.atom("CUR")
+    except NormError:
+        return None
+
+
+def _truth(N, test):
+    alts = [simplify(set(c)) for c in _dnf(N, test, True)]
+    if any(a is not None and not a for a in alts):
+        return True
+    if all(a is None for a in alts):
+        return False
+    return None
+
+
+def _interp(ctx, stmts, env, what):
+    """Effect of a loop body on the tracked variables (polynomial transformer);
+    if-statements must be decided by the tracked values."""
+    for st in stmts:
+        if isinstance(st, ast.Pass) or (isinstance(st, ast.Expr) and isinstance(st.value, ast.Call) and is_log_call(st.value)):
+            continue
+        if isinstance(st, (ast.Assign, ast.AugAssign, ast.AnnAssign)):
+            tgt = st.targets[0] if isinstance(st, ast.Assign) and len(st.targets) == 1 else getattr(st, "target", None)
+            if isinstance(tgt, ast.Name) and tgt.id in env:
+                v = Expander._def_value(tgt.id, st)
+                ctx.need(v is not None, "%s: unsupported assignment %s" % (what, stmt_text(st)))
+                try:
+                    env[tgt.id] = Normalizer(penv=dict(env)).poly(v)
+                except NormError as e:
+                    raise AnalysisError("%s: %s" % (what, e))
+                continue
+        if isinstance(st, ast.If):
+            t = _truth(Normalizer(penv=dict(env)), st.test)
+            ctx.need(t is not None, "%s: branch %s is not decided by the cursor/exponent values" % (what, stmt_text(st.test)))
+            _interp(ctx, st.body if t else st.orelse, env, what)
+            continue
+        for n in ast.walk(st):
+            if isinstance(n, ast.Name) and isinstance(n.ctx, (ast.Store, ast.Del)) and n.id in env:
+                raise AnalysisError("%s: statement outside the rule's vocabulary writes %s: %s" % (what, n.id, stmt_text(st)))
+            if isinstance(n, (ast.Break, ast.Continue, ast.Return, ast.Raise)):
+                raise AnalysisError("%s: control transfer inside the size-reduction loop" % what)
+    return env
+
+
+@R.clause("C05.c", "Block1 loop: the acknowledged block number is compared before the cursor moves and a mismatch raises; cursor +1 (BERT +len//1024) once per block; size reduction keeps cursor*2^(szx+4) and only lowers szx; the final block refuses more/2.31")
+def c(ctx):
+    r = _block1_roles(ctx)
+    fi, cfg, X, N = r.fi, r.cfg, r.X, r.N
+    ctx.ob("each block is cut from the application request at (cursor, szx, <request>.remote.maximum_payload_size)",
+           chain(r.maxarg) == r.req + ".remote.maximum_payload_size", fi, r.call)
+    ctx.floor("cursor updates in the Block1 loop", len(r.cur_writes), 2)
+    ctx.floor("cursor advance sites", len(r.adv), 1)
+    # c2: the comparison dominates every cursor update
+    for w in r.cur_writes:
+        ctx.ob("cursor update happens only after the acknowledged Block1 number was found equal to the number sent", holds_at(X, N, fi, w, r.match), fi, w)
+    # c3: mismatch raises
+    mism = pseudo_asserting(X, N, cfg, lambda a: entails(a, r.mismatch))
+    ctx.floor("branches taken on a Block1 number mismatch", len(mism), 1)
+    for pid_ in sorted(mism):
+        region = cfg.reach({pid_}, skip_labels=("exc",))
+        raises = [cfg.nodes[n] for n in region if cfg.nodes[n].kind == "raise"]
+        classes = [exc_class(ctx.prog, fi, n.ast) for n in raises]
+        ok = cfg.exit not in region and r.send_nid not in region and bool(raises) and all(
+            c is not None and ctx.prog.is_subclass(c, "aiocoap.error.UnexpectedBlock1Option") for c in classes)
+        ctx.ob("a Block1 number mismatch ends the request with UnexpectedBlock1Option (no further block is sent, nothing is returned)", ok, fi, cfg.nodes[pid_].ast,
+               detail="raises %s; reaches exit=%s, next request=%s" % (classes, cfg.exit in region, r.send_nid in region))
+    # c4: advance exactly once per acknowledged block, by the right amount
+    matchp = pseudo_asserting(X, N, cfg, lambda a: entails(a, r.match))
+    ctx.floor("branches taken on a Block1 number match", len(matchp), 1)
+    adv_nodes = {cfg.loc1(w): w for w in r.adv}
+    szx_nodes = {cfg.loc1(w) for w in r.szx_writes}
+    between = cfg.reach({r.send_nid}, avoid=set(adv_nodes))
+    ctx.ob("the size exponent is not modified between cutting a block and advancing the cursor", not (szx_nodes & between), fi, r.call)
+    bert_ref = P("len(%s.payload) // 1024" % r.blk)
+    fails = {"regular": [], "BERT": []}
+    for s in range(8):
+        W = "BERT" if s == 7 else "regular"
+        inf = _infeasible(r, s)
+        app = {n: w for n, w in adv_nodes.items() if not any(cfg.dominates(p, n) for p in inf)}
+        for mp in matchp:
+            if mp in inf:
+                continue
+            if r.send_nid in cfg.reach({mp}, avoid=inf | set(app), skip_labels=("exc",)):
+                fails[W].append("szx=%d: the next block can be requested without advancing the cursor" % s)
+        for n, w in app.items():
+            if cfg.reach({n}, avoid=inf | {r.send_nid}, skip_labels=("exc",)) & set(app):
+                fails[W].append("szx=%d: cursor advanced twice for one block" % s)
+            d = _delta(r.cursor, w)
+            want = bert_ref if s == 7 else Poly.const(1)
+            if d != want:
+                fails[W].append("szx=%d: cursor advanced by %r" % (s, d))
+    anchor = r.adv[0]
+    ctx.ob("regular exponents: after each acknowledged block the cursor advances exactly once, by one block", not fails["regular"], fi, anchor,
+           detail="; ".join(fails["regular"][:4]) or None, construct="cursor advance (szx 0..6) in BlockwiseRequest._run")
+    ctx.ob("BERT: after each acknowledged block the cursor advances exactly once, by len(block payload)//1024", not fails["BERT"], fi, anchor,
+           detail="; ".join(fails["BERT"][:4]) or None, construct="cursor advance (szx 7) in BlockwiseRequest._run")
+    # c5: size reduction
+    ctx.floor("size-reduction loops", len(r.red_loops), 1)
+    ctx.need(len(r.red_loops) == 1, "_run: several nested loops modify the cursor / exponent")
+    loop = r.red_loops[0]
+    ctx.need(isinstance(loop, ast.While) and not loop.orelse, "_run: size reduction is not a plain while loop")
+    stray = [w for w in r.szx_writes if r.innermost(w) is not loop]
+    for w in stray:
+        ctx.ob("the size exponent changes only inside the size-reduction loop", False, fi, w)
+    if not stray:
+        ctx.ob("the size exponent changes only inside the size-reduction loop", True, fi, loop, construct="while %s" % stmt_text(loop.test))
+    tn = test_nid(cfg, loop.test)
+    ct = canon(X, loop.test, tn)
+    want_test = frozenset({frozenset({("lt", Poly.atom(r.resp_szx) - Poly.atom(r.szx))})})
+    try:
+        got_test = N.dnf(ct) if ct is not None else None
+    except NormError:
+        got_test = None
+    ctx.ob("size reduction runs exactly while the server's Block1 exponent is below the current one", got_test == want_test, fi, loop.test,
+           detail="normal form %s" % (sorted(map(_show, got_test)) if got_test else None))
+    ctx.ob("size reduction happens after the cursor advance and before the next block is cut",
+           not (set(adv_nodes) & cfg.reach({tn}, avoid={r.send_nid})) and tn not in cfg.reach(matchp, avoid=set(adv_nodes)), fi, loop.test,
+           construct="position of while %s" % stmt_text(loop.test))
+    f_dec, f_inv = [], []
+    for s in range(1, 7):
+        env = _interp(ctx, loop.body, {r.cursor: Poly.atom("CUR"), r.szx: Poly.const(s)}, "size-reduction loop")
+        c2, s2 = env[r.cursor], env[r.szx].const_value()
+        if s2 is None or s2.denominator != 1 or not (0 <= s2 < s):
+            f_dec.append("szx=%d -> %r" % (s, env[r.szx]))
+            continue
+        if c2 * Poly.const(2 ** (int(s2) + 4)) != Poly.atom("CUR") * Poly.const(2 ** (s + 4)):
+            f_inv.append("szx=%d: (cursor, szx) -> (%r, %d)" % (s, c2, s2))
+    ctx.ob("every pass of the size-reduction loop lowers the exponent (it never grows; the loop terminates)", not f_dec, fi, loop, detail="; ".join(f_dec[:4]) or None,
+           construct="exponent step of while %s" % stmt_text(loop.test))
+    ctx.ob("every pass of the size-reduction loop keeps the byte offset cursor * 2^(szx+4) (regular exponents)", not f_inv and not f_dec, fi, loop, detail="; ".join(f_inv[:4]) or None,
+           construct="cursor step of while %s" % stmt_text(loop.test))
+    # c6: final block
+    finals = pseudo_asserting(X, N, cfg, lambda a: r.final in a)
+    ctx.floor("branches for 'the block just sent was the last one'", len(finals), 1)
+    nomore = pseudo_asserting(X, N, cfg, lambda a: ("nottruth", r.resp_more) in a or ("is", r.resp_more, "False") in a)
+    cont = None
+    for n in ast.walk(r.outer):
+        if isinstance(n, (ast.Name, ast.Attribute)) and (chain(n) or "").split(".")[-1] == "CONTINUE":
+            q = ctx.prog.resolve_in_module(fi.module, chain(n))
+            if q.startswith("aiocoap.numbers"):
+                cont = chain(n)
+    notcont = set()
+    if cont is not None:
+        lit = ("ne", norm._signnorm(Poly.atom(r.resp + ".code") - Poly.atom(cont)))
+        notcont = pseudo_asserting(X, N, cfg, lambda a: lit in a)
+    for fp in sorted(finals):
+        ctx.ob("after the final block the transfer only completes if the response's Block1 has no more-flag", cfg.must_pass(fp, nomore), fi, cfg.nodes[fp].ast,
+               construct="final block: %s" % stmt_text(cfg.nodes[fp].ast))
+        ctx.ob("after the final block the transfer only completes if the response code is not 2.31 Continue", bool(notcont) and cfg.must_pass(fp, notcont), fi, cfg.nodes[fp].ast,
+               construct="final block (code): %s" % stmt_text(cfg.nodes[fp].ast))
+
+
+@R.clause("C05.f", "size reduction away from the BERT exponent keeps the byte offset (block numbers count 1024-byte units for szx 7 and for szx 6)")
+def f(ctx):
+    r = _block1_roles(ctx)
+    fi = r.fi
+    ctx.need(len(r.red_loops) == 1 and isinstance(r.red_loops[0], ast.While), "_run: size-reduction loop not found")
+    loop = r.red_loops[0]
+    env = _interp(ctx, loop.body, {r.cursor: Poly.atom("CUR"), r.szx: Poly.const(7)}, "size-reduction loop")
+    c2, s2 = env[r.cursor], env[r.szx].const_value()
+    valid = s2 is not None and s2.denominator == 1 and 0 <= s2 <= 7
+    after = c2 * Poly.const(2 ** unit_exp(int(s2))) if valid else None
+    ctx.ob("a pass of the size-reduction loop starting at szx 7 keeps the byte offset cursor * 1024", valid and after == Poly.atom("CUR") * Poly.const(1024), fi, loop,
+           detail="(cursor, szx) = (CUR, 7) -> (%r, %r): byte offset %r instead of 1024*CUR" % (c2, env[r.szx], after),
+           construct="BERT step of while %s" % stmt_text(loop.test))
+
+
+# ===========================================================================
+# C05.d  Block2 assembly
+# ===========================================================================
+
+
+def _text(e):
+    return " ".join(ast.unparse(e).split())
+
+
+@R.clause("C05.d", "_append_response_block: payload-size validity, start == len(payload) and equal ETag are raising guards before the append; the next Block2 request asks for len(payload)//size")
+def d(ctx):
+    prog = ctx.prog
+    fi = prog.func(MSG + "_append_response_block")
+    p = params(fi)
+    ctx.need(len(p) == 1 and not writes_to_name(fi.node, p[0]), "_append_response_block signature changed")
+    nb = p[0]
+    cfg = cfg_of(fi)
+    X, N = Expander(fi), Normalizer()
+    appends = [st for k, st in stores_to(fi.node, "self.payload") if k == "assign"]
+    ctx.floor("stores to self.payload in _append_response_block", len(appends), 1)
+    valid = ("truth", _text(ast.parse("%s.opt.block2.is_valid_for_payload_size(len(%s.payload))" % (nb, nb), mode="eval").body))
+    start = ("eq", norm._signnorm(P("%s.opt.block2.start - len(self.payload)" % nb)))
+    etag = ("eq", norm._signnorm(P("%s.opt.etag - self.opt.etag" % nb)))
+    guards = (("the block's payload size is valid for its Block2 descriptor", valid, None),
+              ("the block's offset equals the number of bytes assembled so far", start, None),
+              ("the block's ETag equals the ETag of the first block", etag, "aiocoap.error.ResourceChanged"))
+    for st in appends:
+        if isinstance(st, ast.AugAssign):
+            ok = isinstance(st.op, ast.Add) and chain(st.value) == nb + ".payload"
+        else:
+            ok = isinstance(st, ast.Assign) and match("self.payload + %s.payload" % nb, st.value) is not None
+        ctx.ob("the assembled body grows by exactly the next block's payload", ok, fi, st)
+        for text, lit, _cls in guards:
+            ctx.ob("append happens only when " + text, holds_at(X, N, fi, st, lit), fi, st, construct="%s  [guard: %s]" % (stmt_text(st), text))
+    app_nodes = {cfg.loc1(st) for st in appends}
+    for text, lit, cls in guards:
+        neg = _neg(lit)
+        ps = pseudo_asserting(X, N, cfg, lambda a: neg in a)
+        ctx.floor("branches for the negation of '%s'" % text, len(ps), 1)
+        for pid_ in sorted(ps):
+            region = cfg.reach({pid_}, skip_labels=("exc",))
+            raises = [cfg.nodes[n] for n in region if cfg.nodes[n].kind == "raise"]
+            classes = [exc_class(prog, fi, n.ast) for n in raises]
+            ok = cfg.exit not in region and not (region & app_nodes) and bool(raises)
+            if cls is not None:
+                ok = ok and all(c is not None and prog.is_subclass(c, cls) for c in classes)
+            else:
+                ok = ok and all(c is not None and prog.is_subclass(c, "Exception") for c in classes)
+            ctx.ob("unless %s the assembly raises%s" % (text, (" " + cls.split(".")[-1]) if cls else ""), ok, fi, cfg.nodes[pid_].ast,
+                   detail="raises %s" % classes)
+
+    # next request
+    gi = prog.func(MSG + "_generate_next_block2_request")
+    gp = params(gi)
+    ctx.need(len(gp) == 1 and not writes_to_name(gi.node, gp[0]), "_generate_next_block2_request signature changed")
+    resp = gp[0]
+    gcfg = cfg_of(gi)
+
+    def pure(call):
+        c = chain(call.func) or ""
+        return _default_pure(call) or c.split(".")[-1] in ("BlockwiseTuple", "reduced_to") or (isinstance(call.func, ast.Attribute) and call.func.attr == "reduced_to")
+
+    GX = Expander(gi, pure=pure, minmax=False)
+    rets = [n for n in walk_no_nested(gi.node) if isinstance(n, ast.Return)]
+    ctx.floor("returns of _generate_next_block2_request", len(rets), 1)
+    want_num = P("len(%s.payload) // %s.opt.block2.size" % (resp, resp))
+    for rt in rets:
+        ctx.need(rt.value is not None, "_generate_next_block2_request returns nothing on some path")
+        for v, _c in GX.expand(rt.value, gcfg.loc1(rt)):
+            b2 = _kw(v, "block2") if isinstance(v, ast.Call) else None
+            ctx.need(b2 is not None, "_generate_next_block2_request: returned message has no block2= argument")
+            reduced = False
+            m = match("$t.reduced_to($x)", b2)
+            if m is not None:
+                reduced, b2 = True, m["t"]
+            elts = b2.elts if isinstance(b2, ast.Tuple) else (b2.args if isinstance(b2, ast.Call) and not b2.keywords else None)
+            ctx.need(elts is not None and len(elts) == 3, "_generate_next_block2_request: Block2 value is not a (num, more, szx) triple")
+            try:
+                got = Normalizer().poly(elts[0])
+            except NormError:
+                got = None
+            ctx.ob("the next Block2 request asks for block len(assembled payload) // size of the last block", got == want_num, gi, rt, detail="asks for %r" % got,
+                   construct="%s  [number]" % stmt_text(rt))
+            ctx.ob("the next Block2 request uses the size exponent of the last received block (at most reduced by reduced_to)",
+                   chain(elts[2]) == "%s.opt.block2.size_exponent" % resp, gi, rt, detail="exponent %s%s" % (_text(elts[2]), " reduced" if reduced else ""),
+                   construct="%s  [exponent]" % stmt_text(rt))
+
+
+# ===========================================================================
+# C05.e  error propagation
+# ===========================================================================
+
+
+def _exc_succ(cfg, nid):
+    return {d for d, lab in cfg.succ[nid] if lab == "exc"}
+
+
+def _handler_types(prog, fi, h):
+    if h.type is None:
+        return ["BaseException"]
+    ts = h.type.elts if isinstance(h.type, ast.Tuple) else [h.type]
+    out = []
+    for t in ts:
+        c = chain(t)
+        out.append(prog.resolve_in_module(fi.module, c) if c else "?")
+    return out
+
+
+def _catches_exceptions(prog, types):
+    """Does a handler with these types catch some subclass of Exception?"""
+    for t in types:
+        if t in ("BaseException", "Exception") or prog.is_subclass(t, "Exception"):
+            return True
+        if t == "?":
+            return True
+    return False
+
+
+@R.clause("C05.e", "_complete_by_requesting_block2: a first block with number != 0 raises; a body is returned only when no more blocks are announced; assembly errors are re-raised; _run lets them escape and _run_outer hands every Exception to response.set_exception")
+def e(ctx):
+    prog = ctx.prog
+    fi = prog.func(BR + "_complete_by_requesting_block2")
+    p = params(fi)
+    ctx.need(len(p) == 4, "_complete_by_requesting_block2 signature changed")
+    init = p[2]
+    ctx.need(not writes_to_name(fi.node, init), "_complete_by_requesting_block2 rebinds the initial response")
+    cfg = cfg_of(fi)
+    X, N = Expander(fi), Normalizer()
+    gens = [n for n, _ in find("$r._generate_next_block2_request($a)", fi.node)]
+    ctx.floor("next-block requests in _complete_by_requesting_block2", len(gens), 1)
+    zero = ("eq", Poly.atom("%s.opt.block2.block_number" % init))
+    for g in gens:
+        ctx.ob("further blocks are requested only when the first response carried block number 0", holds_at(X, N, fi, g, zero), fi, g)
+    nz = pseudo_asserting(X, N, cfg, lambda a: _neg(zero) in a)
+    ctx.floor("branches for a non-zero first block number", len(nz), 1)
+    for pid_ in sorted(nz):
+        region = cfg.reach({pid_}, skip_labels=("exc",))
+        raises = [cfg.nodes[n] for n in region if cfg.nodes[n].kind == "raise"]
+        classes = [exc_class(prog, fi, n.ast) for n in raises]
+        ctx.ob("a first block with a non-zero number raises UnexpectedBlock2", cfg.exit not in region and bool(raises)
+               and all(c is not None and prog.is_subclass(c, "aiocoap.error.UnexpectedBlock2") for c in classes), fi, cfg.nodes[pid_].ast, detail="raises %s" % classes)
+
+    # returns: only when the latest response announces no further block
+    def done(a):
+        for l in a:
+            if l[0] == "is" and l[1].endswith(".opt.block2") and l[2] == "None":
+                return True
+            if l[0] == "is" and l[1].endswith(".opt.block2.more") and l[2] == "False":
+                return True
+            if l[0] == "nottruth" and l[1].endswith(".opt.block2.more"):
+                return True
+        return False
+
+    last = pseudo_asserting(X, N, cfg, done)
+    rets = [n for n in walk_no_nested(fi.node) if isinstance(n, ast.Return)]
+    ctx.floor("returns of _complete_by_requesting_block2", len(rets), 2)
+    for rt in rets:
+        rn = cfg.loc1(rt)
+        ok = rn not in cfg.reach({cfg.entry}, avoid=last)
+        ctx.ob("a response is returned only on a path where a Block2-less response or a cleared more-flag was seen", ok, fi, rt)
+    ctx.ob("the function cannot end without an explicit return", cfg.must_pass(cfg.entry, [cfg.loc1(rt) for rt in rets]) and all(rt.value is not None for rt in rets), fi, fi.node,
+           construct="_complete_by_requesting_block2")
+
+    # the handler around _append_response_block re-raises
+    apps = [n for n, _ in find("$r._append_response_block($a)", fi.node)]
+    ctx.floor("_append_response_block call sites", len(apps), 1)
+    for ap in apps:
+        an = cfg.loc1(ap)
+        hs = [h for h in _exc_succ(cfg, an) if cfg.nodes[h].kind == "handler"]
+        bad = []
+        for h in hs:
+            inside = cfg.reach({h}, include_src=True)
+            raises = {n for n in inside if cfg.nodes[n].kind == "raise"}
+            if not cfg.must_pass(h, raises, to=cfg.exit) or any(g2 in cfg.reach({h}, avoid=raises, skip_labels=("exc",)) for g2 in [cfg.loc1(g) for g in gens]):
+                bad.append(h)
+        ctx.ob("an error raised while appending a block is not swallowed: every handler around the append re-raises on all paths", not bad, fi, ap,
+               detail="%d handler(s), %d swallow" % (len(hs), len(bad)))
+        fresh = False
+        if len(ap.args) == 1 and isinstance(ap.args[0], ast.Name):
+            defs, entry = X.reaching(ap.args[0].id, an)
+            fresh = bool(defs) and not entry and all(
+                isinstance(st, ast.Assign) and isinstance(st.value, ast.Await) and enclosing_loops(cfg, st, fi.node)[:1] == enclosing_loops(cfg, ap, fi.node)[:1]
+                for _wn, st, _v, _b in defs)
+        ctx.ob("the block appended is the response awaited in the same round of the loop", fresh, fi, ap, construct="%s  [argument]" % stmt_text(ap))
+
+    # _run: block-wise errors escape
+    ri = prog.func(BR + "_run")
+    rcfg = cfg_of(ri)
+    sites = [n for n in walk_no_nested(ri.node) if isinstance(n, ast.Raise)]
+    sites = [n for n in sites if (exc_class(prog, ri, n) or "").startswith("aiocoap.error.")]
+    calls = [n for n, _ in find("$c._complete_by_requesting_block2($*a)", ri.node)]
+    ctx.floor("protocol-error raise sites in _run", len(sites), 2)
+    ctx.floor("_complete_by_requesting_block2 call sites in _run", len(calls), 1)
+    for n in sites + calls:
+        nid = rcfg.loc1(n)
+        srcs = {nid} if rcfg.nodes[nid].kind == "raise" else _exc_succ(rcfg, nid)
+        r2 = rcfg.reach(srcs, include_src=True) - ({nid} if rcfg.nodes[nid].kind != "raise" else set())
+        ctx.ob("an error raised at this point of _run leaves _run (no handler turns it into a normal completion)", rcfg.exit not in r2 and rcfg.rexit in r2, ri, n)
+    sets = [n for n, bb in find("$f.set_result($v)", ri.node) if chain(bb["f"]) in params(ri)]
+    ctx.floor("set_result sites in _run", len(sets), 1)
+    for srt in sets:
+        v = resolve_local(ri.node, srt.args[0])
+        ok = isinstance(v, ast.Await) and any(v.value is c for c in calls)
+        ctx.ob("the result handed to the caller is the body assembled by _complete_by_requesting_block2", ok, ri, srt)
+
+    # _run_outer
+    oi = prog.func(BR + "_run_outer")
+    op = params(oi)
+    ocfg = cfg_of(oi)
+    runs = [n for n, _ in find("$c._run($*a)", oi.node)]
+    ctx.floor("calls of _run in _run_outer", len(runs), 1)
+    for rc in runs:
+        rn = ocfg.loc1(rc)
+        ctx.need(len(rc.args) >= 2 and isinstance(rc.args[1], ast.Name) and rc.args[1].id in op, "_run_outer: the response future is not passed through to _run")
+        fut = rc.args[1].id
+        tries = [t for t in walk_no_nested(oi.node) if isinstance(t, ast.Try) and any(contains(s, rc) for s in t.body)]
+        ctx.ob("_run is awaited inside a try statement", bool(tries), oi, rc, construct="%s  [try]" % stmt_text(rc))
+        seen_exc = False
+        for t in tries:
+            for h in t.handlers:
+                types = _handler_types(prog, oi, h)
+                if not _catches_exceptions(prog, types):
+                    continue
+                covers_all = any(x in ("Exception", "BaseException") for x in types)
+                hn = [i for i in ocfg.locate(h) if ocfg.nodes[i].kind == "handler"]
+                ctx.need(hn and h.name, "_run_outer: handler does not bind the exception")
+                setx = {ocfg.loc1(n) for n, _ in find("%s.set_exception(%s)" % (fut, h.name), h)}
+                donep = set()
+                for pz in pseudo_nodes(ocfg):
+                    if match("%s.done()" % fut, pz.ast) is not None and pz.kind == "T" and any(contains(s, pz.ast) for s in h.body):
+                        donep.add(pz.id)
+                ok = bool(setx) and ocfg.must_pass(hn[0], setx | donep)
+                ctx.ob("an exception caught from _run is stored in the response future unless the future is already done", ok, oi, h,
+                       construct="except %s" % ", ".join(types))
+                for sx in setx:
+                    ctx.ob("set_exception is attempted only on a future that is not done",
+                           holds_at(Expander(oi), Normalizer(), oi, ocfg.nodes[sx].ast, ("nottruth", "%s.done()" % fut)), oi, ocfg.nodes[sx].ast)
+                if covers_all:
+                    seen_exc = True
+                    break
+            ctx.ob("every Exception escaping _run is caught in _run_outer", seen_exc, oi, t, construct="try around %s" % stmt_text(rc))
